@@ -162,3 +162,22 @@ Theorem c04_total : forall c tr s, traces_to c tr s ->
         exists s' os, step s (LRelDeliver j) = Some (s', os) /\ crash s' = None).
 Proof. exact total_on_records. Qed.
 Print Assumptions c04_total.
+
+(** * Monitor over the observation sequence of a run (cli/CliMonitors.v), extracted (extract/climon.list) and
+    evaluated by ocaml/run_cli.ml on every harness log, racing ones included.  [env_of tr] = the environment labels
+    of the trace in order, [concat oss] = the observations of the run in order.  No hypothesis: the id counter of the
+    model is a natural number and never wraps. *)
+From JV Require CliMonitors.
+Module Monitors.
+Import CliMonitors.
+(* (b) the ids on all request records handed to the transport in a run (transmitted or failed; members without an
+   id - notifications - skipped) are pairwise distinct *)
+Theorem c04_mon_ids_fresh_sound : forall c tr s oss, run (init_of c) tr = Some (s, oss) ->
+  mon_ids_fresh (env_of tr) (concat oss) = true.
+Proof. exact CliMonitors.mon_ids_fresh_sound. Qed.
+Print Assumptions c04_mon_ids_fresh_sound.
+
+Theorem c04_sent_ids_nodup : forall c tr s oss, run (init_of c) tr = Some (s, oss) -> NoDup (sent_ids (concat oss)).
+Proof. exact CliMonitors.sent_ids_nodup. Qed.
+Print Assumptions c04_sent_ids_nodup.
+End Monitors.
